@@ -52,7 +52,39 @@ let s_dec max bs =
   let lax = if s = None && l <> None then " ~ " ^ answer max l else "" in
   strict ^ lim ^ lax
 
+let fnv_prime = 0x100000001b3L
+let fnv (h : int64 ref) (s : string) =
+  String.iter (fun c -> h := Int64.mul (Int64.logxor !h (Int64.of_int (Char.code c))) fnv_prime) s;
+  h := Int64.mul (Int64.logxor !h 10L) fnv_prime
+let fnv_init = 0xcbf29ce484222325L
+let starts_with p s = String.length s >= String.length p && String.sub s 0 (String.length p) = p
+let canon r = if starts_with "err decomp" r then "err decomp" else if starts_with "err toolong" r then "err toolong" else r
+
 let handle ws = match ws with
+  | ["q.blk"; prefix; n] ->
+    let p = bytes_of_hex prefix in
+    let n = int_of_string n in
+    let total = 1 lsl (8 * n) in
+    let hm = ref fnv_init and hs = ref fnv_init in
+    let oks = ref 0 and soks = ref 0 and kf = ref 0 in
+    for k = 0 to total - 1 do
+      let suffix = List.init n (fun j -> n_of_int ((k lsr (8 * (n - 1 - j))) land 255)) in
+      let bs = p @ suffix in
+      let m = canon (m_dec None bs) in
+      if starts_with "ok" m then incr oks;
+      fnv hm m;
+      (* the spec digest takes the documented lax answer inside the known-finding class, and an implementation
+         limit on integers where the strict answer needs one *)
+      let strict = answer None (rfc_decode_static bs) in
+      let s' =
+        if strict = m then strict
+        else if starts_with "err" strict && answer None (rfc_decode_static_lax bs) = m then (incr kf; m)
+        else if starts_with "ok" strict && rfc_decode_static_bounded bs = None && m = "err decomp" then m
+        else strict in
+      if starts_with "ok" s' then incr soks;
+      fnv hs s'
+    done;
+    Printf.sprintf "n=%d ok=%d h=%016Lx | n=%d ok=%d h=%016Lx kf=%d" total !oks !hm total !soks !hs !kf
   | ["q.enc"; f] ->
     let fs = fields_of_string f in
     (match encode_stateless fs with
